@@ -332,6 +332,13 @@ impl<T> From<*const Signal<T>> for SignalTerminator<T> {
     }
 }
 
+#[cfg(kanal_verif)]
+impl<T> SignalTerminator<T> {
+    pub(crate) fn verif_addr(&self) -> usize {
+        self.0 as usize
+    }
+}
+
 impl<T> SignalTerminator<T> {
     pub(crate) unsafe fn send(self, data: T) {
         Signal::send(self.0, data)
